@@ -96,7 +96,11 @@ def check(c, r, layer_kinds, nstmts, tag, big_ok=False, huge=False):
         e = e.replace('z', 'y%d_' % s) if 'z' in e and 'eth::frame' in e and ', z' in e else e
         wrapped, pis = e, []
         sg = single
-        for ss in sessions:
+        r3 = r.fork('bind%d' % s)
+        for li, ss in enumerate(sessions):
+            if r3.chance(1, 4):
+                # the inner packets handed over through a name (bound by let just before) instead of inline
+                body_enc.append('let in%d_%d = %s;' % (s, li, wrapped)); wrapped = 'in%d_%d' % (s, li); c.count('inner-by-name')
             wrapped, pi = ss.wrap(wrapped, r, sg)
             pis.append(pi)
             sg = sg and wrapped.split('(')[0].endswith('dgram')
